@@ -53,6 +53,10 @@ def run(check: Check):
   _get_sampler(check, get)
   _shuffled_sampler(check, shf)
   _prs(check)
+  # the streaming sampler reproduces rounds only over a reproducibly seeded client stream
+  from fjsa.props import c08
+  for ci in c08.federated_impls(repo):
+    c08.shuffled_stream(check, ci, 'R-STREAM.seeded')
   ka = KeyAnalysis(repo)
   for ci in (get, shf):
     check_function(check, ka, ci.method('sample'), 'R-KEY', step_like=False)
